@@ -82,7 +82,7 @@ def run(rep, tier, seed, replay=None):
                 progs.append([l.rstrip("\n") for l in open(os.path.join(cp, f)) if l.strip() and not l.startswith("#")])
         r = C.rng(seed, "c02")
         for _ in range(8000 if tier == "thorough" else 1200):
-            progs.append(sync_gen.gen_c02(r, tier == "thorough"))
+            progs.append(sync_gen.gen_c02_barge(r, tier == "thorough") if r.random() < 0.4 else sync_gen.gen_c02(r, tier == "thorough"))
     try:
         results = hsim.run_programs(binary, progs)
     except RuntimeError as ex:
